@@ -336,7 +336,11 @@ fn append_pattern_styles(tb: &mut ThemeBuilder, t_stroke: &str) {
     ] {
         fn get_spacing(prefix: &str, c: &str) -> Option<u32> {
             if let Some(suffix) = c.strip_prefix(prefix) {
-                suffix.parse::<u32>().ok().filter(|&n| n <= 100)
+                // (digits only: `parse` would also take "+5", which no selector can name)
+                suffix
+                    .parse::<u32>()
+                    .ok()
+                    .filter(|&n| n <= 100 && suffix.bytes().all(|b| b.is_ascii_digit()))
             } else {
                 None
             }
